@@ -361,6 +361,9 @@ type azGen struct {
 	rng *RNG
 	pg  *progGen
 	err bool // error-prone content allowed
+	// focus, when set, restricts the queries an adversarial block tries to satisfy (e.g. to the
+	// checks of the block that follows it)
+	focus []SRule
 }
 
 func (g *azGen) check() SCheck {
